@@ -2,7 +2,7 @@
 """writes /verif/MANIFEST.json from the table below (kept in one place so it stays valid)"""
 import json, os, subprocess
 
-ROOT = "/verif"
+ROOT = os.path.dirname(os.path.dirname(os.path.abspath(__file__)))
 props = [json.loads(l) for l in open(os.path.join(ROOT, "properties.jsonl"))]
 hook_commits = subprocess.check_output("git -C /repo log --format='%h %s' | grep ' hooks:' | cut -d' ' -f1", shell=True, text=True).split()
 
